@@ -421,7 +421,7 @@ End AttemptB.
 Lemma sr_attempt_B fuel k : forall s d, mid s k -> fut_idle s -> s_nsend s <= s_retry s -> B (fst (sr_attempt fuel s k d)).
 Proof.
   induction fuel as [|fuel IH]; intros s d M I Hn; cbn [sr_attempt].
-  - apply sr_unwind_B; auto.
+  - pose proof (exec_finish_B s k (RRaise XCancelled) M I) as H. destruct (exec_finish s k (RRaise XCancelled)). exact H.
   - apply sr_attempt_body_B; auto.
 Qed.
 
@@ -457,7 +457,7 @@ Proof.
   pose proof (B_quiet_of _ _ _ HB Hk Hn) as Hq.
   destruct (t_pc tk) eqn:Hpc; cbn [active_ok] in A.
   - (* PcStart *) destruct A as (A1 & A2 & A3). apply sr_attempt_B; auto. lia.
-  - (* PcLockWait *) destruct A as (A1 & A2).
+  - (* PcLockWait *) destruct A as (A1 & A2). destruct (negb (woken s w)); [exact HB|].
     set (s1 := s <| s_waiters := _ |> <| s_lock := true |> <| s_owner := Some k |>).
     assert (F1 : frame s s1) by frame_same.
     apply sr_locked_B. intros; apply sr_attempt_B; auto. eapply mid_frame; eauto. eapply fut_idle_frame; eauto. exact A1.
@@ -484,7 +484,7 @@ Proof.
     + apply sr_unwind_B; auto. apply Hidle. discriminate.
     + apply sr_exception_B; auto. intros; apply sr_attempt_B; auto. apply Hidle. discriminate.
     + apply sr_exception_B; auto. intros; apply sr_attempt_B; auto. apply Hidle. discriminate.
-  - (* PcCloseLockWait *) cbv zeta. cbn [fst]. apply (Hclose w ALoopExc). reflexivity.
+  - (* PcCloseLockWait *) destruct (negb (woken s w)); [exact HB|]. cbv zeta. cbn [fst]. apply (Hclose w ALoopExc). reflexivity.
   - (* PcCloseStart *) destruct (Hq eq_refl) as [R0 I0].
     assert (Hdone : forall s1, frame s s1 -> B (set_pc s1 k PcDone)).
     { intros s1 F1. apply B_of_mid. eapply mid_frame; eauto. discriminate.
@@ -499,7 +499,7 @@ Proof.
       apply B_of_mid. eapply mid_frame; eauto.
       -- intros _. cbn. eapply fut_idle_frame; eauto.
       -- intros _. split. rewrite (fr_retry _ _ F1). exact R0. eapply fut_idle_frame; eauto.
-  - (* PcCloseOnlyWait *) cbn [fst]. apply (Hclose w ALoopExc). reflexivity.
+  - (* PcCloseOnlyWait *) destruct (negb (woken s w)); [exact HB|]. cbn [fst]. apply (Hclose w ALoopExc). reflexivity.
   - discriminate.
 Qed.
 
@@ -650,8 +650,8 @@ Proof.
   - destruct (get_task k (s_tasks s)) as [tk|] eqn:Hk; [|exact HB].
     destruct (t_wf tk); [|exact HB].
     assert (Fu : frame s (upd_task s k (fun x => x <| t_cancelled := true |> <| t_wf := false |>))) by (apply upd_task_frame; reflexivity).
-    destruct (t_pc tk); try exact HB; cbn [fst];
-      (eapply B_frame; [|exact HB]; eapply frame_trans; [exact Fu | apply push_frame]).
+    destruct (t_pc tk); try exact HB; cbv zeta; cbn [fst];
+      (eapply B_frame; [|exact HB]; destruct (has_task k (s_ready s)); [exact Fu | eapply frame_trans; [exact Fu | apply push_frame]]).
 Qed.
 
 Lemma get_task_app_new l k t : get_task k l = None -> forall k', get_task k' (l ++ [(k, t)]) = if Nat.eqb k' k then Some t else get_task k' l.
